@@ -706,6 +706,9 @@ func main() {
 			checkC09Decode(r, res)
 		}
 	}
+	if *prop == "C14" {
+		runC14ConfigPath(r)
+	}
 	if *prop == "C09" {
 		runC09Interop(r)
 		runC09InteropServer(r)
